@@ -85,6 +85,18 @@ def run_single(cfg: dict, ctx, letters=None, conn_letters=None, fp=True, prior=(
     peer.forced = []
     peer.ctx = ctx
     loop.kern.ntx = 0
+    kern = loop.kern
+
+    def in_flight():
+        return [x for x in kern.q if not callable(x[3])] or any(sk.rx for sk in kern.socks.values())
+    if cfg.get('drain'):
+        # let what the earlier requests left in flight arrive (and nothing more: no timer is waited for)
+        guard = 0
+        while in_flight() and guard < 50:
+            nxt = min((x[0] for x in kern.q if not callable(x[3])), default=loop.time())
+            loop.settle(max(nxt - loop.time(), 0))
+            guard += 1
+    clean = not in_flight()
     if fp:
         ctx.fp = lambda: fingerprint(loop, (p,))
     cmd = make_command(p, cfg.get('cmd', 'read'))
@@ -96,6 +108,7 @@ def run_single(cfg: dict, ctx, letters=None, conn_letters=None, fp=True, prior=(
         res = ('hang', res)
     loop.settle(0)
     obs = observe(loop, peer, res, t0, t1, l0, s0)
+    obs['clean_start'] = clean
     obs['connects'] = peer.connects[c0:]
     obs['served'] = peer.served[s0:]
     obs['valid_for'] = peer.valid_for[s0:]
